@@ -1,25 +1,35 @@
 use crate::gen::*;
-use clarabel::algebra::*;
-use clarabel::solver::SupportedConeT;
-use clarabel::verif_hooks::cones::*;
+use clarabel::solver::*;
+use clarabel::verif_hooks as vh;
 
-pub fn stub_random_state() -> std::collections::hash_map::RandomState {
-    unsafe { std::mem::transmute::<[u64; 2], std::collections::hash_map::RandomState>([1, 2]) }
+fn sym_body<const N: usize>() {
+    let mut cones: [SupportedConeT<f64>; N] = core::array::from_fn(|_| SupportedConeT::ZeroConeT(0));
+    let mut i = 0;
+    while i < N {
+        cones[i] = any_cone(2);
+        i += 1;
+    }
+    let out = vh::new_collapsed(&cones);
+    let mut i = 0;
+    while i < out.len() {
+        assert!(vh::cone_nvars(&out[i]) > 0, "no_empty_cone_in_the_output");
+        if i > 0 {
+            assert!(!(is_nn(&out[i - 1]) && is_nn(&out[i])), "adjacent_nonnegative_cones_are_merged");
+        }
+        i += 1;
+    }
+    kani::cover!(out.len() == N);
+    kani::cover!(out.len() == 0);
 }
 
 #[kani::proof]
-#[kani::unwind(20)]
-#[kani::stub(std::collections::hash_map::RandomState::new, stub_random_state)]
-pub fn p_composite_stack() {
-    crate::stack_composite!(cones, [SupportedConeT::<f64>::ZeroConeT(1), SupportedConeT::<f64>::NonnegativeConeT(2)]);
-    let mut n = 0;
-    for c in cones.iter() {
-        let mut i = 0;
-        while i < c.numel() {
-            n += 1;
-            i += 1;
-        }
-        assert!(c.Hs_is_diagonal());
-    }
-    assert!(n == 3 && cones.numel() == 3);
+#[kani::unwind(6)]
+pub fn p_collapse_sym2() {
+    sym_body::<2>();
+}
+
+#[kani::proof]
+#[kani::unwind(6)]
+pub fn p_collapse_sym3() {
+    sym_body::<3>();
 }
